@@ -197,6 +197,51 @@ Definition handshake (cfg : rcfg) (ev : env) (st : rstate) (c : cert) : rstate *
     (st3, v)
   end.
 
+(* ---- provisioning: every configured location (crl_urls / crl_files) is added and then updated synchronously,
+   with the trusted signer certificates as the only chains; any failure fails provisioning
+   (CRLRevocationChecker.Provision -> addCrlUrlsFromConfig / addCrlFilesFromConfig -> AddCRL, UpdateCRL).
+   A configured location is identified by itself; the harness never uses one location both ways. *)
+Definition config_cert (trusted : list N) : cert := {| c_issuer := 0; c_serial := 0; c_cdps := []; c_chain := trusted |}.
+
+Definition configure_one (cfg : rcfg) (ev : env) (trusted : list N) (st : rstate) (loc : N) : option rstate :=
+  let id := [loc] in
+  let st1 := added_state cfg st id (config_cert trusted) in
+  (* AddCRL: in active mode an entry that is not loaded is loaded now *)
+  let st2o :=
+    match r_fetch cfg, lookup id (entries st1) with
+    | Active, Some e =>
+      if e_loaded e then Some st1
+      else let '(e', r) := intake cfg ev FirstLoad id e trusted NoFault in
+           match r with
+           | Some _ => Some {| entries := update id e' (entries st1); disk := persist cfg id r (disk st1) |}
+           | None => None
+           end
+    | _, _ => Some st1
+    end in
+  match st2o with
+  | None => None
+  | Some st2 =>
+    (* UpdateCRL: a synchronous update, whatever the state of the entry *)
+    match lookup id (entries st2) with
+    | None => None
+    | Some e =>
+      let '(e', r) := intake cfg ev Refresh id e trusted NoFault in
+      match r with
+      | Some _ => Some {| entries := update id e' (entries st2); disk := persist cfg id r (disk st2) |}
+      | None => None
+      end
+    end
+  end.
+
+Fixpoint provision (cfg : rcfg) (ev : env) (trusted : list N) (locs : list N) (st : rstate) : option rstate :=
+  match locs with
+  | [] => Some st
+  | loc :: r => match configure_one cfg ev trusted st loc with
+                | Some st' => provision cfg ev trusted r st'
+                | None => None
+                end
+  end.
+
 Definition restart (cfg : rcfg) (st : rstate) : rstate := {| entries := []; disk := disk st |}.
 
 Inductive rstep := SServe (loc : N) (a : answer) | SHandshake (c : cert) | SRefresh (f : fault) | SRestart.
